@@ -95,6 +95,7 @@ type PolicyRec struct {
 	PPlain      float64 `json:"p_plain,omitempty"`
 	PBound      float64 `json:"p_bound,omitempty"`
 	Depth       int     `json:"depth,omitempty"`
+	Quantum     int64   `json:"quantum,omitempty"`
 	EstSteps    int64   `json:"est_steps,omitempty"`
 	HerdAt      int64   `json:"herd_at,omitempty"`
 	StallTask   int     `json:"stall_task,omitempty"`
